@@ -30,3 +30,19 @@ From SM Require Import Model.Mappings Model.Glb Model.SourceMap Model.Rewrite Mo
 Theorem C18_detected : forall f d, is_sourcemap_common (minimal_of (dm_as_raw (S f) d)) = true.
 Proof. exact DetectProofs.C18_detected. Qed.
 Print Assumptions C18_detected.
+
+(* the produced data URL placed in a sourceMappingURL comment (either form) after lines that do not begin with a prefix is
+   discovered as written and decodes to what the serialised bytes decode to *)
+From SM Require Import Proofs.EmbeddedProofs.
+Theorem C18_embedded : forall (is_ws : Z -> bool) (p_new p_legacy : bytes) (A : Type) (encode : A -> bytes) (decode_slice : bytes -> outcome A) pre post m,
+  let url := to_data_url encode PREAMBLE_OUT m in
+  Forall (fun l => has_prefix p_new p_legacy l = false) pre ->
+  Detector.trim is_ws url = url -> Forall byte (encode m) ->
+  (starts_with (p_new ++ url) [47; 47; 64] = false ->
+   exists r, Detector.locate_lines is_ws p_new p_legacy (length p_new) (pre ++ (p_new ++ url) :: post) = Some r
+             /\ get_embedded decode_slice r = decode_slice (encode m))
+  /\ (starts_with (p_legacy ++ url) [47; 47; 64] = true ->
+   exists r, Detector.locate_lines is_ws p_new p_legacy (length p_legacy) (pre ++ (p_legacy ++ url) :: post) = Some r
+             /\ get_embedded decode_slice r = decode_slice (encode m)).
+Proof. exact @EmbeddedProofs.C18_embedded. Qed.
+Print Assumptions C18_embedded.
